@@ -51,30 +51,65 @@ def generate(ctx, depth, tier=None):
     return ev[0], states
 
 
-def build_cases(states, events, keep, twins=False, chunk=12, readback=True):
+def _q(op, comps, t, loc, glob=None):
+    raw = b"/".join(bytes(c) for c in comps) + (b"/" if t and comps else b"")
+    return {"op": op, "p": {"c": comps, "t": bool(t and comps)}, "raw": list(raw), "loc": loc, "data": [],
+            "glob": {"some": glob is not None, "s": glob or ""}}
+
+
+def observations(e, sandwich):
+    """the calls that look at the target of a mutation and at the two directories above it;
+    issued before and after the mutation on the same LayeredFilesystem object, and after it on a clone taken before"""
+    comps = e["p"]["c"]
+    obs = []
+    locs = [True, False] if e["loc"] else [False]
+    for n in range(len(comps) - 1, max(len(comps) - 3, -1), -1):      # the parent and the grandparent directory
+        d = comps[:n]
+        for l2 in locs:
+            if sandwich == "c13":
+                for g in (None, "*"):
+                    obs.append(_q("list", d, False, l2, g))
+                obs.append(_q("subdirectories", d, False, l2))
+            else:
+                for op in ("exists", "directory_exists", "resolve"):
+                    obs.append(_q(op, d, False, l2))
+    if sandwich != "c13":
+        for op in ("read", "file_exists", "exists", "resolve"):
+            obs.append(_q(op, comps, e["p"]["t"], e["loc"]))
+    return obs
+
+
+def build_cases(states, events, keep, twins=False, chunk=12, readback=True, sandwich=None, mutations=None):
     """One case per state with all non-mutating calls on one materialisation, and cases of <= chunk mutating
-    calls each of which starts from a fresh materialisation of the state."""
+    calls each of which starts from a fresh materialisation of the state (fresh LayeredFilesystem object).
+    sandwich: every mutation is preceded and followed by the observations() of its target on the SAME object (and
+    followed by them on a clone taken before it).  Case k spells its layer roots in style k mod 7 (0 = plain)."""
     cases = []
-    evs = [e for e in events if keep(e)]
+    evs = [e for e in events if keep(e) or (mutations and e["op"] in MUTATING and mutations(e))]
     expanded = []
     for e in evs:
         if e["op"] in ("write_archive", "write_text_archive"):
-            for fix in ("le", "be"):
+            for fix in (("le",) if sandwich == "c13" else ("le", "be")):
                 x = dict(e)
                 x["fix"] = fix
                 expanded.append(x)
         else:
-            expanded.append(e)
+            expanded.append(dict(e))
     q = [e for e in expanded if e["op"] not in MUTATING]
     m = [e for e in expanded if e["op"] in MUTATING]
-    if readback:
-        # read-after-write in the spec -> impl direction: the same path with the same localisation choice is read
-        # back (and looked up) on the same directories right after each write
-        for e in m:
-            if e["op"] != "create_dir":
-                e["then"] = [dict(e, op=op, data=[], fix=None) for op in ("read", "file_exists", "resolve")]
-                for t in e["then"]:
-                    t.pop("fix")
+    for e in m:
+        follow = []
+        if readback and e["op"] != "create_dir":
+            # read-after-write: the same path with the same localisation choice is read back (and looked up) on the
+            # same directories right after each write
+            follow = [_q(op, e["p"]["c"], e["p"]["t"], e["loc"]) for op in ("read", "file_exists", "resolve")]
+        if sandwich:
+            obs = observations(e, sandwich)
+            e["before"] = obs
+            e["clone_then"] = obs
+            follow = follow + obs
+        if follow:
+            e["then"] = follow
     for s in states:
         base = {"game": s["game"], "lang": s["lang"], "layers": s["layers"], "twins": twins}
         qs, ms = q, m
@@ -92,6 +127,10 @@ def build_cases(states, events, keep, twins=False, chunk=12, readback=True):
             cases.append(dict(base, events=qs, fresh=False))
         for k in range(0, len(ms), chunk):
             cases.append(dict(base, events=ms[k:k + chunk], fresh=True))
+    # the statement does not restrict how the caller spells a layer root: plain, trailing '/', "<root>/x/../lN",
+    # doubled '/', a symlink to the layer directory, relative to the working directory (harness: ROOT_STYLES)
+    for k, c in enumerate(cases):
+        c["roots"] = k % 7
     return cases
 
 
@@ -289,7 +328,8 @@ def count_nontrivial(events):
     return len(seen)
 
 
-def run_fs(ctx, laws, keep, owns, profile=None, twins=False, post=None, lz=False, unsupported_games=False):
+def run_fs(ctx, laws, keep, owns, profile=None, twins=False, post=None, lz=False, unsupported_games=False, sandwich=None,
+           mutations=None):
     """model check -> generate -> replay -> validate -> (record -> validate).  Returns (replayed events, recorded events)."""
     binary = ctx.build("release", "mvh_fs")
     # 1. the laws on the bounded model
@@ -310,7 +350,7 @@ def run_fs(ctx, laws, keep, owns, profile=None, twins=False, post=None, lz=False
             deeper = sorted((s for s in states if s["depth"] > 0), key=lambda s: json.dumps(s, sort_keys=True))
             states = deeper[::2]
         n_states += len(states)
-        cases = build_cases(states, alphabet, keep, twins=twins, readback=not twins)
+        cases = build_cases(states, alphabet, keep, twins=twins, readback=not twins, sandwich=sandwich, mutations=mutations)
         if unsupported_games and gi == 0:
             # LayeredFilesystem::new on the games the statement does not list: an "unsupported" error (op "new")
             for g in ("FE11", "FE12"):
